@@ -1,5 +1,8 @@
 import Crusta.Proofs.Calls
 import Crusta.Proofs.Abstract
+import Crusta.Proofs.SolveCallsID
+import Crusta.Proofs.SolveCallsRG
+import Crusta.Proofs.Assemble
 
 /-!
 # C18 — every query terminates within a bounded number of SAT calls (property theorems)
@@ -64,5 +67,60 @@ theorem range_grow {α : Type} [DecidableEq α] (c : Abs.RCtx α) (rs : List (Ab
     (hs : Abs.RSoundRun c rs R []) (h : Abs.rgrow rs S R [] = some res) :
     Abs.MaxRange c res.1 ∧ res.2 = c.rg res.1 :=
   Abs.rgrow_correct c rs S R [] res hb hSR hR (by simp) hs h
+
+/-! ## the searches on the `Prog` models: termination and call bounds for every sound run
+
+The four theorems below are about the programs the driver replays against the implementation.  They
+are total-correctness statements (`wp False`): on sound replies the program reaches no `crash` node
+(in particular the model's fuel — an artefact, the Rust loops have none — never runs out when it is
+at least the stated amount) and a run that returns has made at most the stated number of SAT calls.
+`|CO|`, `|PR|`, `|CF|` are the lengths of the exact enumerations of the spec layer. -/
+
+/-- PR on a component: `compute_maximal` ≤ n + 1 calls; the skeptical search ≤ |CO| + |PR| + 1
+(in fact ≤ |CO|: no candidate set is examined twice) -/
+theorem pr_calls_on_prog (cfg : Cfg) (hk : ∀ af T, cfg.enc.Base af T ↔ Complete af T) (c : Comp)
+    (hwf : c.af.WF) (w : World) (hb : w.Bounded) :
+    (cfg.fuel ≥ c.af.n + 3 →
+      wp False (prMaximalOfComp cfg c) w (fun _ w' => w'.calls ≤ w.calls + c.af.n + 1)) ∧
+    (∀ args sc, (∃ pos, posAll c args = some pos) → cfg.fuel ≥ (extsCO c.af).length + 1 →
+      wp False (prSkeptInCc cfg c args sc) w
+        (fun _ w' => w'.calls ≤ w.calls + (extsCO c.af).length + (extsPR c.af).length + 1)) :=
+  ⟨fun hf => prMaximalOfComp_calls cfg hk c hwf (GrOK_of_wf _ hwf) w hb hf,
+   fun args sc hpos hf => prSkeptInCc_calls_c18 cfg hk c args sc hwf (GrOK_of_wf _ hwf) w hb hpos hf⟩
+
+/-- ID on a component: ≤ 2|CO| + |PR| + 2 calls -/
+theorem id_calls_on_prog (cfg : Cfg) (hk : ∀ af T, cfg.enc.Base af T ↔ Complete af T) (c : Comp)
+    (hwf : c.af.WF) (w : World) (hb : w.Bounded)
+    (hfuel : cfg.fuel ≥ (extsCO c.af).length + (extsPR c.af).length + 2) :
+    wp False (idOneForCc cfg c) w
+      (fun _ w' => w'.calls ≤ w.calls + 2 * (extsCO c.af).length + (extsPR c.af).length + 2) ∧
+    ∀ pos, wp False (idCredForCc cfg c pos) w
+      (fun _ w' => w'.calls ≤ w.calls + 2 * (extsCO c.af).length + (extsPR c.af).length + 2) :=
+  ⟨idOneForCc_calls_c18 cfg hk c hwf (GrOK_of_wf _ hwf) w hb hfuel,
+   fun pos => idCredForCc_calls_c18 cfg hk c pos hwf (GrOK_of_wf _ hwf) w hb hfuel⟩
+
+/-- SST / STG on a component: ≤ (n+2)·|base| + 3 calls, `base` = the complete (SST) or conflict-free
+(STG) sets -/
+theorem range_calls_on_prog (cfg : Cfg) (hk : RangeEnc cfg.enc) (c : Comp) (args : List Nat) (cred : Bool)
+    (hwf : c.af.WF) (w : World) (hb : w.Bounded) (hpos : ∃ pos, posAll c args = some pos) :
+    ((∀ af T, cfg.enc.Base af T ↔ Complete af T) → cfg.fuel ≥ (c.af.n + 2) * (extsCO c.af).length + 2 →
+      wp False (rgAccInCc cfg c args cred) w
+        (fun _ w' => w'.calls ≤ w.calls + (c.af.n + 2) * (extsCO c.af).length + 3)) ∧
+    ((∀ af T, cfg.enc.Base af T ↔ ConflictFree af T) → cfg.fuel ≥ (c.af.n + 2) * (extsCF c.af).length + 2 →
+      wp False (rgAccInCc cfg c args cred) w
+        (fun _ w' => w'.calls ≤ w.calls + (c.af.n + 2) * (extsCF c.af).length + 3)) := by
+  constructor
+  · intro hco hf
+    refine wp_mono _ _ _ _ ?_ (rgAccInCc_calls_sst cfg hk hco c args cred hwf (GrOK_of_wf _ hwf) w hb hpos hf)
+    intro _ w' h; omega
+  · intro hcf hf
+    refine wp_mono _ _ _ _ ?_ (rgAccInCc_calls_stg cfg hk hcf c args cred hwf (GrOK_of_wf _ hwf) w hb hpos hf)
+    intro _ w' h; omega
+
+/-- what the `wp False … calls` statements mean for runs of the interpreter -/
+theorem calls_statement_meaning {α : Type} (p : Prog α) (w : World) (k : Nat)
+    (h : wp False p w (fun _ w' => w'.calls ≤ w.calls + k)) (rs : List Reply) (hs : RunSound p rs w) :
+    (∀ msg w', interp p rs w ≠ (.crashed msg, w')) ∧
+    ∀ a w', interp p rs w = (.done a, w') → w'.calls ≤ w.calls + k := calls_of_wp p w k h rs hs
 
 end Crusta.C18
